@@ -36,6 +36,7 @@ PROPS = {
     "C10": {"jobs": [enum("TestC10Single"), rapid("TestC10Multi", 2500, 8000)]},
     "C06": {"jobs": [rapid("TestC06", 1200, 8000), enum("TestC06AllTTLs"), enum("TestC06UDP6ChecksumSearch")]},
     "C20": {"jobs": [enum("TestC20Table"), rapid("TestC20", 2000, 2000)]},
+    "C11": {"jobs": [rapid("TestC11", 800, 4000), rapid("TestC11Request", 800, 3000), rapid("TestC11Alloc", 500, 3000), enum("TestC11EchoIDs")]},
     "C15": {"jobs": [rapid("TestC15", 2500, 8000)]},
     "C19": {"jobs": [rapid("TestC19", 3000, 8000), enum("TestC19Extremes")]},
 }
